@@ -120,7 +120,8 @@ NewActor(parent, slab, logid) ==
   [ s |-> "prep", own |-> 1, dying |-> "", issued |-> {}, notified |-> FALSE,
     cause |-> "", vdropped |-> FALSE, hasval |-> FALSE, held |-> << >>,
     running |-> 0, parent |-> parent, slabOf |-> IF slab THEN parent ELSE 0,
-    slab |-> {}, logid |-> logid, closed |-> FALSE ]
+    slab |-> {}, logid |-> logid, closed |-> FALSE,
+    pn |-> "" ]      \* notifier also wired to the parent: "fail" (ret_fail!), "failthru" (ret_failthru!)
 
 AState(st, aid) == IF Has(st.actors, aid) THEN st.actors[aid].s ELSE "none"
 
@@ -145,6 +146,8 @@ Fate(st, en) ==
   CASE en.k = "item" -> "stay"
     [] en.k = "mark" -> "gone"
     [] en.k \in {"term", "dkill"} -> IF AState(st, en.aid) = "zombie" THEN "gone" ELSE "stay"
+    [] en.k = "failcall" ->      \* delivery of a ret_fail!/ret_failthru! Ret: an apply that fails the target
+         IF AState(st, en.aid) = "prep" THEN "hold" ELSE IF AState(st, en.aid) = "zombie" THEN "gone" ELSE "stay"
     [] en.k = "slabrm" -> IF AState(st, en.aid) = "prep" THEN "hold" ELSE "gone"
     [] en.k = "retcall" /\ en.prep ->     \* Ret aimed at a Prep-style function: runs only in Prep, else a no-op
          IF AState(st, en.aid) = "prep" THEN "stay" ELSE "gone"
@@ -216,8 +219,13 @@ Terminate(st, aid, cause) ==
 \* A termination by owner drop that takes effect now (vdrop/notify seen for a
 \* live actor): the term entry must be pending and reachable
 ImplicitDropTerm(st, aid) ==
-  LET f == ToFront(st, LAMBDA en : en.k \in {"term", "dkill"} /\ en.aid = aid) IN
-  IF f.found /\ f.en.k = "dkill"
+  LET f == ToFront(st, LAMBDA en : en.k \in {"term", "dkill", "failcall"} /\ en.aid = aid) IN
+  IF f.found /\ f.en.k = "failcall"
+  THEN \* a child's end reaches its parent through ret_fail!/ret_failthru!: the parent fails
+       LET c == "failed:" \o f.en.code IN
+       [st |-> [Terminate(f.st, aid, c) EXCEPT !.actors[aid].issued = @ \cup {c}],
+        bad |-> B(~f.ok, "C02", "failure passed on by a child's notifier overtook earlier queued calls")]
+  ELSE IF f.found /\ f.en.k = "dkill"
   THEN \* a kill queued by kill! takes effect: the owner it kept for the purpose goes with it
        LET c == "killed:" \o f.en.code IN
        [st |-> [Terminate(f.st, aid, c) EXCEPT !.actors[aid].own = @ - 1],
@@ -607,7 +615,7 @@ ApplyNWaitMax(st, e) ==
 
 \* ---- actors
 ApplyACreate(st, e) ==
-  LET a == NewActor(e.parent, e.slab, e.logid)
+  LET a == [NewActor(e.parent, e.slab, e.logid) EXCEPT !.pn = IF "pnotify" \in DOMAIN e THEN e.pnotify ELSE ""]
       s1 == [st EXCEPT !.actors = Put(@, e.aid, a)]
       s2 == IF e.slab /\ Has(s1.actors, e.parent)
             THEN [s1 EXCEPT !.actors[e.parent].slab = @ \cup {e.aid}] ELSE s1
@@ -705,7 +713,13 @@ ApplyNotify(st, e) ==
                    \cup B(\E i \in closes : st.logrecs[i].id # a.logid \/ st.logrecs[i].marker # marker,
                           "C20", "Close record id/marker does not match the StopCause delivered")
               ELSE B(closes # {}, "C20", "Close record delivered although filtered out")
-  IN R([s2 EXCEPT !.logrecs = << >>],
+      \* ret_fail! passes on Some and None alike, ret_failthru! only a failed (or lost) child
+      pcode == (IF a.pn = "fail" THEN "pf" ELSE "pt") \o ToString(e.aid)
+      pass == a.pn = "fail" \/ (a.pn = "failthru" /\ ~none /\ Len(e.cause) >= 6 /\ SubSeq(e.cause, 1, 6) = "failed")
+      s3 == IF pass /\ a.parent # 0
+            THEN AppendMain(s2, [Entry("failcall", 0, a.parent, FALSE, Tag(st)) EXCEPT !.code = pcode])
+            ELSE s2
+  IN R([s3 EXCEPT !.logrecs = << >>],
        r0.bad \cup lbad
        \cup B(a0.notified, "C03", "StopCause notifier invoked more than once")
        \cup B("intact" \in DOMAIN e /\ ~e.intact, "C03", "error payload of the StopCause was not delivered intact")
